@@ -39,10 +39,11 @@ def effective(leaves, derived):
 
 
 # ------------------------------------------------------------------------------------------------ representations
-NN_REPS = ("nn_flat", "nn_nested", "nn_method_mixed", "nn_tied", "em_nn", "em_nn_reordered", "sib_multi_nn", "sib_single_nn")
+NN_REPS = ("nn_flat", "nn_nested", "nn_method_mixed", "nn_tied", "em_nn", "em_nn_reordered", "sib_multi_nn", "sib_single_nn",
+           "sib_multi_plainmid", "sib_multi_plainfirst")
 REPS = ("pure", "pure_nontensor", "jit", "nn_flat", "nn_nested", "nn_method_mixed", "nn_tied",
         "em_flat", "em_container", "em_alias", "em_nn", "em_nn_reordered", "em_mixed",
-        "sib_single", "sib_single_nn", "sib_multi", "sib_multi_shared", "sib_multi_nn")
+        "sib_single", "sib_single_nn", "sib_multi", "sib_multi_shared", "sib_multi_nn", "sib_multi_plainmid", "sib_multi_plainfirst")
 
 
 _SCRIPTED = {}
@@ -244,7 +245,7 @@ def build(rep, core, nlead, eff, s):
             return inner.fcn(*lead) * 1.0
         return Built(f, (), inner.objs, ())
 
-    if rep in ("sib_multi", "sib_multi_shared", "sib_multi_nn"):
+    if rep in ("sib_multi", "sib_multi_shared", "sib_multi_nn", "sib_multi_plainmid", "sib_multi_plainfirst"):
         class E1(xitorch.EditableModule):
             def __init__(self, a, b, W):
                 self.a = a
@@ -257,7 +258,7 @@ def build(rep, core, nlead, eff, s):
                     return [prefix + "a"]
                 raise KeyError(methodname)
 
-        if rep == "sib_multi_nn":
+        if rep in ("sib_multi_nn", "sib_multi_plainmid", "sib_multi_plainfirst"):
             class E2(torch.nn.Module):
                 def __init__(self, a, b, W):
                     super().__init__()
@@ -283,7 +284,12 @@ def build(rep, core, nlead, eff, s):
                     raise KeyError(methodname)
         e1, e2 = E1(a, b, W), E2(a, b, W)
 
-        @xitorch.make_sibling(e1.geta, e2.getbw)
+        def stateless(x):          # a plain function among the siblings: it holds no tensors
+            return x * 1.0
+        sibs = {"sib_multi_plainmid": (e1.geta, stateless, e2.getbw),
+                "sib_multi_plainfirst": (stateless, e1.geta, e2.getbw)}.get(rep, (e1.geta, e2.getbw))
+
+        @xitorch.make_sibling(*sibs)
         def f(*lead):
             pb, pW = e2.getbw()
             pa = e1.geta()
